@@ -24,7 +24,9 @@
      (the Data field, not the qacc argument).
    * rungekutta4: before each of the three intermediate forward() calls d.time is set to
      time_t0 + a_i * timestep (kernel _rk_stage_time; c_i = a_i for this tableau) and restored
-     to time_t0 before the final _advance.
+     to time_t0 before the final _advance.  d.sensordata is cloned at entry and copied back with the other
+     restores (the stages' forward() recomputes sensors; MuJoCo skips them): sensordata is not part of
+     the integration state modelled here, the clone/copy pair is pinned by IntegrateFacts.rk4_events.
    Enum values (checked against types.py by bin/props/C08.py on every run):
      JointType FREE=0 BALL=1 SLIDE=2 HINGE=3;  DynType FILTEREXACT=3 DCMOTOR=5 USER=7. *)
 From Coq Require Import ZArith List Bool.
